@@ -7,13 +7,16 @@ specification written from the property statement.  Plus dispatch / argument-rol
 from __future__ import annotations
 
 import ast
+import itertools
+import re
 
 import sympy as sp
 from sympy import Symbol, Rational, Integer
 
 from ..core import src, AnalysisError
 from .. import units as U
-from ..symx import SymExec, Arr, ITE, Wrap, PI, sym_equal, make_args, Undecided
+from ..symx import (SymExec, Arr, ITE, Wrap, PI, make_args, Undecided, canon_rel, consistent, collect_ites,
+                    alg_equal)
 from ..kernels import SPLINE_HANDLERS, S2, FEQ, h_cross, h_scalar2
 from .. import agree
 
@@ -58,15 +61,179 @@ def fill_spec(S, th_foot, r_foot, nul):
     return ITE(nul, null_fill, feq_fill)
 
 
-def compare(chk, rule, node, what, code, spec, func):
+# ---------------------------------------------------------------------------------------------------------
+# comparison of conditionals level by level
+#
+# `symx.sym_equal` builds one truth table over the atomic comparisons of all conditionals as they are written.  An
+# atom whose operands themselves contain a conditional (the corrected foot is compared with the radial bounds, and
+# the corrector contains the in/out-of-domain conditional of the predictor point) is then only recognised as the
+# same atom when the inner conditional is written the same way (`ITE(not c, a, b)` vs `ITE(c, b, a)` are two
+# different texts).  Here the conditionals are resolved from the inside out: first the conditions that contain no
+# conditional are given truth values, the conditionals they decide are replaced by the chosen arm, which makes the
+# next layer of conditions conditional-free, and so on.  Atoms are identified up to polynomial identity.
+# ---------------------------------------------------------------------------------------------------------
+
+class _Atoms:
+    """truth assignment over canonical atoms `(kind, expr)`; atoms whose expressions are identical as rational
+    functions are one atom"""
+
+    def __init__(self):
+        self.rep = {}            # syntactic key -> representative key
+
+    def key(self, k, e):
+        if (k, e) in self.rep:
+            return self.rep[(k, e)]
+        r = (k, e)
+        if k != "atom":
+            for (k2, e2) in set(self.rep.values()):
+                if k2 == k and e2 is not e and _same_rational(e, e2):
+                    r = (k2, e2)
+                    break
+        self.rep[(k, e)] = r
+        return r
+
+
+def _same_rational(a, b):
+    if a == b:
+        return True
+    if a.free_symbols != b.free_symbols:
+        return False
     try:
-        ok, wit = sym_equal(code, spec)
+        n, _ = sp.fraction(sp.together(a - b))
+        return sp.expand(n) == 0
+    except Exception:
+        return False
+
+
+def _cond_atoms(c, A, acc):
+    if isinstance(c, (sp.And, sp.Or)) or (isinstance(c, sp.Not) and isinstance(c.args[0], (sp.And, sp.Or))):
+        for a in (c.args if not isinstance(c, sp.Not) else c.args[0].args):
+            _cond_atoms(a, A, acc)
+    elif c in (sp.true, sp.false):
+        return
+    else:
+        k, e, _n = canon_rel(c)
+        acc.add(A.key(k, e))
+
+
+def _cond_eval(c, A, val):
+    """truth value of an ITE-free condition under `val`, None when one of its atoms has no value yet"""
+    if c is sp.true:
+        return True
+    if c is sp.false:
+        return False
+    if isinstance(c, (sp.And, sp.Or)):
+        vs = [_cond_eval(a, A, val) for a in c.args]
+        if isinstance(c, sp.And):
+            return False if any(v is False for v in vs) else None if any(v is None for v in vs) else True
+        return True if any(v is True for v in vs) else None if any(v is None for v in vs) else False
+    if isinstance(c, sp.Not) and isinstance(c.args[0], (sp.And, sp.Or)):
+        v = _cond_eval(c.args[0], A, val)
+        return None if v is None else not v
+    k, e, n = canon_rel(c)
+    key = A.key(k, e)
+    if key not in val:
+        return None
+    return (not val[key]) if n else val[key]
+
+
+def _resolve(e, A, val):
+    """replace, bottom-up, every conditional whose condition is decided by `val` by the chosen arm"""
+    if not getattr(e, "args", None) or not e.has(ITE):
+        return e
+    if isinstance(e, ITE):
+        c = _resolve(e.args[0], A, val)
+        if not c.has(ITE):
+            v = _cond_eval(c, A, val)
+            if v is not None:
+                return _resolve(e.args[1] if v else e.args[2], A, val)
+        return ITE(c, _resolve(e.args[1], A, val), _resolve(e.args[2], A, val))
+    return e.func(*[_resolve(a, A, val) for a in e.args])
+
+
+def layered_equal(a, b, max_atoms=14):
+    """equality of two extracted expressions with nested conditionals -> (bool, witness)"""
+    A = _Atoms()
+
+    def rec(a, b, val):
+        ites = []
+        collect_ites(a, ites)
+        collect_ites(b, ites)
+        if not ites:
+            if alg_equal(a, b):
+                return True, None
+            return False, {"case": {f"{k}:{e}": v for (k, e), v in val.items()}, "code": str(a)[:300], "spec": str(b)[:300]}
+        ready = [t for t in ites if not t.args[0].has(ITE)]
+        if not ready:
+            raise Undecided("conditional whose condition cannot be freed of conditionals")
+        atoms = set()
+        for t in ready:
+            _cond_atoms(t.args[0], A, atoms)
+        new = sorted(atoms - set(val), key=str)
+        if not new:
+            raise Undecided("conditional not resolved by its own atoms")
+        if len(val) + len(new) > max_atoms:
+            raise Undecided(f"{len(val) + len(new)} atomic conditions")
+        for bits in itertools.product([False, True], repeat=len(new)):
+            v2 = dict(val)
+            v2.update(zip(new, bits))
+            if not consistent(v2):
+                continue
+            ok, wit = rec(_resolve(a, A, v2), _resolve(b, A, v2), v2)
+            if not ok:
+                return ok, wit
+        return True, None
+    return rec(a, b, {})
+
+
+def unify_shapes(e, args):
+    """every two-dimensional argument of the kernels lives on the (theta, r) grid: `X.shape[0]` is the number of
+    theta points and `X.shape[1]` the number of r points whatever array X it is read from (the kernels' precondition,
+    asserted by PoloidalAdvection.step for f and true by construction for the work arrays)"""
+    if not isinstance(e, sp.Basic):
+        return e
+    sub = {}
+    for s_ in e.free_symbols:
+        m = _SHAPE_SYM.match(s_.name)
+        if m and m.group(2) in args and isinstance(args[m.group(2)], Arr) and m.group(2) not in ("qPts", "rPts") \
+                and not m.group(2).startswith(("kts", "coeffs")):
+            sub[s_] = Symbol("n0_qPts" if m.group(1) == "0" else "n0_rPts", integer=True, positive=True)
+    return e.xreplace(sub) if sub else e
+
+
+_SHAPE_SYM = re.compile(r"^n([01])_(\w+)$")
+
+
+def compare(chk, rule, node, what, code, spec, func, args=None, diagnose=None):
+    """decisive verdict of the formula engine; anything that prevents the comparison is UNDECIDED"""
+    try:
+        if args is not None:
+            code = unify_shapes(code, args)
+        ok, wit = layered_equal(code, spec)
     except Undecided as e:
         chk.ob(rule, node, what, None, f"comparison not decidable: {e}", file=U.ADVK, func=func)
-        return
-    chk.ob(rule, node, what, ok, "extracted formula equals the specification" if ok else
-           f"extracted formula differs from the specification: {wit}", file=U.ADVK, func=func,
+        return None
+    why = "extracted formula equals the specification"
+    if not ok:
+        why = f"extracted formula differs from the specification: {wit}"
+        if diagnose is not None:
+            try:
+                d = diagnose(code)
+            except Exception:
+                d = None
+            if d:
+                why = d + " - " + why
+    chk.ob(rule, node, what, ok, why, file=U.ADVK, func=func,
            facts={"code": str(code)[:400], "spec": str(spec)[:400]})
+    return ok
+
+
+def cell(ex, name, idx):
+    """content of one array cell after symbolic execution; Undecided when the array is gone or the cell may alias"""
+    a = ex.env.get(name)
+    if not isinstance(a, Arr):
+        raise Undecided(f"array `{name}` is not bound after the symbolic execution")
+    return a.read(list(idx))
 
 
 def check_explicit(chk, mod, modname=U.ADVK, qname=EXPL):
